@@ -276,3 +276,7 @@ pub use assets_manager_macros::Asset;
 
 #[cfg(test)]
 mod tests;
+
+#[cfg(assets_manager_verif)]
+#[allow(missing_docs, missing_debug_implementations)]
+pub mod verif;
